@@ -188,20 +188,20 @@ def search(ctx):
             info = dict(kind="posterior", pars=pars, shape=[nx, ny], lens=bool(lens), noise_from_model=bool(noise_from_model))
             ctx.tried("posterior", (nx, ny, lens, noise_from_model, i))
             lp, ll, lpost = model.lnprior(pars), model.lnlike(pars, d2), model.lnposterior(pars, d2)
-            if abs(lpost - (lp + ll)) > 1e-9 * max(1, abs(lpost)):
+            if not (abs(lpost - (lp + ll)) <= 1e-9 * max(1, abs(lpost))):
                 ctx.violation("C12:sum", "lnposterior %r != lnprior %r + lnlike %r" % (lpost, lp, ll), info)
             wantp = sum(p.lnprob(pars[nm]) for nm, p in zip(names, model._parameters))
-            if abs(lp - wantp) > 1e-12 * max(1, abs(wantp)):
+            if not (abs(lp - wantp) <= 1e-12 * max(1, abs(wantp))):
                 ctx.violation("C12:lnprior-sum", "lnprior is not the sum of the parameters' log-densities", info)
             # forward == public calc_holo for the substituted scatterer/theory/optics incl. scaling
             fwd = model.forward(pars, d2)
             s_sub = model.scatterer_from_parameters(pars)
             t_sub = model.theory_from_parameters(pars)
             pub = calc_holo(d2, s_sub, theory=t_sub, scaling=pars[[nm for nm in names if 'alpha' in nm][0]], **OPT)
-            if float(np.abs(fwd.values - pub.values).max()) > 0:
+            if not (float(np.abs(fwd.values - pub.values).max()) <= 0):
                 ctx.violation("C12:forward", "model.forward differs from the public calc_holo for the substituted objects", info)
             wantl = stats.norm.logpdf((fwd.values - d2.values).ravel(), 0, sd).sum()
-            if abs(ll - wantl) > 1e-9 * max(1, abs(wantl)):
+            if not (abs(ll - wantl) <= 1e-9 * max(1, abs(wantl))):
                 ctx.violation("C12:gaussian", "lnlike %r is not the Gaussian log-density of the residuals %r" % (ll, wantl), info)
             # pixel subsets
             npix = int(rng.integers(1, nx * ny + 1))
@@ -211,7 +211,7 @@ def search(ctx):
             sub = make_subset_data(d2, pixels=npix)
             fsub = calc_holo(sub, s_sub, theory=t_sub, scaling=pars[[nm for nm in names if 'alpha' in nm][0]], **OPT)
             wsub = lp + stats.norm.logpdf((fsub.values - sub.values).ravel(), 0, sd).sum()
-            if abs(lsub - wsub) > 1e-9 * max(1, abs(wsub)):
+            if not (abs(lsub - wsub) <= 1e-9 * max(1, abs(wsub))):
                 ctx.violation("C12:subset", "lnposterior on a pixel subset %r != prior + Gaussian log-density on those pixels %r" % (lsub, wsub), info)
             # outside support / invalid scatterer / constraint: -inf and no hologram computed
             cnt = Counter(data)
